@@ -909,6 +909,29 @@ def s_needs_drop(ex, st, fr, text, args):
 
 
 # ------------------------------------------------------------------------------------------------
+# explicit panics: panic!, unreachable!, unimplemented!, todo!, assert! with a message
+
+@summary(r"^(core::fmt::|std::fmt::)?Arguments::<.*>::(from_str_nonconst|from_str|new_const|new_v1|new_v1_formatted|new)(::<.*>)?$", 'fmt::Arguments constructors: an opaque message (formatting is not the subject)')
+def s_fmt_arguments(ex, st, fr, text, args):
+    msg = ''
+    for a_ in args:
+        if isinstance(a_, Native) and a_.tag == 'str':
+            msg = a_.p[0]
+            break
+    return Native('fmtargs', (msg,))
+
+
+@summary(r'^(core|std)::(panicking|rt)::(panic|panic_fmt|panic_explicit|panic_display|panic_str|panic_nounwind|unreachable_display|begin_panic|panic_const::.*)(::<.*>)?$', 'panic entry points: the path ends in a panic')
+def s_panicking(ex, st, fr, text, args):
+    msg = text.split('::')[-1]
+    for a_ in args:
+        if isinstance(a_, Native) and a_.tag in ('fmtargs', 'str') and a_.p and a_.p[0]:
+            msg = str(a_.p[0])
+            break
+    return PanicResult(msg[:200])
+
+
+# ------------------------------------------------------------------------------------------------
 # Rc: the pointee lives in the root frame of the explored state; clones of the Rc share it
 
 @summary(r'^(std::rc::|alloc::rc::)?Rc::<.*>::new$', 'Rc::new: the value is placed in the state, the Rc is a handle to it')
